@@ -94,6 +94,45 @@ pub fn crude_tokens(src: &str) -> Vec<String> {
     out
 }
 
+const KEYWORDS: &[&str] = &[
+    "as", "break", "catch", "class", "continue", "else", "false", "finally", "fn", "for", "if", "import", "in", "nil", "return", "self",
+    "Self", "super", "throw", "true", "try", "var", "while",
+];
+const OTHER_LEXEMES: &[&str] = &[
+    "0", "1.", "1.5", "1e", "1e5", ".5", "0x", "1..", "1..2", "\"", "\"a", "\"\\", "\"\\x", "\"\\x4", "\"\\u00a", "\"\\U0001F60", "\"${", "\"${1",
+    "\"${1}", "\"a${\"b", "=", "==", "!", "!=", "<", "<<", "<=", ">", ">>", ">=", "&", "&&", "|", "||", ".", "..", "-", "-=", "+", "+=", "/", "//",
+    "#", "#[", "#[x", "#[constructor(", "_", "x", "é", "€", "😀",
+];
+const FOLLOWERS: &[&str] = &["", " ", "\n", ";", "é", "€", "😀", "(", "\"", "_", "1", "=", "\u{800}"];
+const CONTEXTS: &[&str] = &["", "var x = ", "print(", "class A { ", "fn f() { return "];
+
+/// every keyword prefix, and every keyword prefix with one more identifier character
+fn lexemes() -> &'static Vec<String> {
+    static L: OnceLock<Vec<String>> = OnceLock::new();
+    L.get_or_init(|| {
+        let mut v: Vec<String> = Vec::new();
+        for k in KEYWORDS {
+            for n in 1..=k.len() {
+                let p = &k[..n];
+                for ext in ["", "x", "_", "1"] {
+                    let t = format!("{}{}", p, ext);
+                    if !v.contains(&t) {
+                        v.push(t);
+                    }
+                }
+            }
+        }
+        for o in OTHER_LEXEMES {
+            v.push(o.to_string());
+        }
+        v
+    })
+}
+
+fn lexeme_edge_count() -> u64 {
+    (lexemes().len() * FOLLOWERS.len() * CONTEXTS.len()) as u64
+}
+
 const CHAR_POOL: &[&str] = &[
     "\"", "${", "}", "{", "\\", "\n", "(", ")", "[", "]", ";", ".", "é", "€", "😀", "\u{0}", "\u{7f}",
     "\t", "\r", "$", "\\x", "\\u", "\\U", "#", "//", "|", "a", "0", "9", " ", "\u{feff}", "\u{2028}",
@@ -230,6 +269,21 @@ impl C03 {
                 }
                 Some((s, None))
             }
+            "lexeme_edges" => {
+                // one lexeme (keyword prefix, number form, string start, operator) directly followed by
+                // the end of the text or by one character of each width, in five statement contexts
+                let idx = {
+                    let mut b = [0u8; 8];
+                    let n = bytes.len().min(8);
+                    b[..n].copy_from_slice(&bytes[..n]);
+                    u64::from_le_bytes(b) as usize
+                };
+                let l = lexemes();
+                let li = idx % l.len();
+                let fi = (idx / l.len()) % FOLLOWERS.len();
+                let ci = (idx / l.len() / FOLLOWERS.len()) % CONTEXTS.len();
+                Some((format!("{}{}{}", CONTEXTS[ci], l[li], FOLLOWERS[fi]), None))
+            }
             "raw" => Some((String::from_utf8_lossy(bytes).to_string(), None)),
             _ => None,
         }
@@ -286,6 +340,7 @@ impl Property for C03 {
                 Family { name: "soup", kind: FamilyKind::Random { cases: 30000, max_len: 96 } },
                 Family { name: "nesting", kind: FamilyKind::Random { cases: 400, max_len: 8 } },
                 Family { name: "raw", kind: FamilyKind::Random { cases: 8000, max_len: 64 } },
+                Family { name: "lexeme_edges", kind: FamilyKind::Enumerated { count: lexeme_edge_count(), exhaustive: true } },
             ],
             Tier::Thorough => vec![
                 Family { name: "prefix", kind: FamilyKind::Enumerated { count: total, exhaustive: true } },
@@ -294,12 +349,13 @@ impl Property for C03 {
                 Family { name: "soup", kind: FamilyKind::Random { cases: 200_000, max_len: 96 } },
                 Family { name: "nesting", kind: FamilyKind::Random { cases: 4000, max_len: 8 } },
                 Family { name: "raw", kind: FamilyKind::Random { cases: 50_000, max_len: 64 } },
+                Family { name: "lexeme_edges", kind: FamilyKind::Enumerated { count: lexeme_edge_count(), exhaustive: true } },
             ],
         }
     }
 
     fn rule(&self) -> String {
-        "cases: char-boundary prefixes of the repository scripts (every 8th, seed-rotated, in quick; all in thorough), token- and character-level mutations of the scripts, token soup over the full vocabulary, nested constructs up to depth 1000, raw bytes as lossy UTF-8. Oracle: compile() returns without panic; Ok or Err(CompileError) with >=1 message, every message '[module \"main\", line N] Error…: …' with 1<=N<=lines+1; compiling twice gives the same verdict (accept / reject); an accepted function runs under instruction fuel without panic. Non-trivial: >=5 tokens precede the first reported error line, or the text is accepted and has >=1 statement token; distinct by hash of the text.".into()
+        "cases: char-boundary prefixes of the repository scripts (every 8th, seed-rotated, in quick; all in thorough), token- and character-level mutations of the scripts, token soup over the full vocabulary, nested constructs up to depth 1000, raw bytes as lossy UTF-8, and (lexeme_edges, exhaustive) every keyword prefix (also extended by one identifier character), number form, string/escape/interpolation start and operator directly followed by the end of the text or by one character of each UTF-8 width, in five statement contexts. Oracle: compile() returns without panic; Ok or Err(CompileError) with >=1 message, every message '[module \"main\", line N] Error…: …' with 1<=N<=lines+1; compiling twice gives the same verdict (accept / reject); an accepted function runs under instruction fuel without panic. Non-trivial: >=5 tokens precede the first reported error line, or the text is accepted and has >=1 statement token; distinct by hash of the text.".into()
     }
 
     fn assumptions(&self) -> Vec<String> {
